@@ -286,8 +286,15 @@ func handleUpload(ucfg *tconfig.Config, uploadBucket storage.BucketHandle) conte
 		if r.Method == "POST" {
 			ctx := r.Context()
 			var report telemetry.Report
-			if err := json.NewDecoder(r.Body).Decode(&report); err != nil {
+			dec := json.NewDecoder(r.Body)
+			if err := dec.Decode(&report); err != nil {
 				return content.Error(fmt.Errorf("invalid JSON payload: %v", err), http.StatusBadRequest)
+			}
+			// The body must be that one value and nothing else. Reading on to
+			// its end also lets the request size limit refuse a body whose
+			// first value is small but which is over the limit as a whole.
+			if _, err := dec.Token(); err != io.EOF {
+				return content.Error(fmt.Errorf("invalid JSON payload: data after the report (%v)", err), http.StatusBadRequest)
 			}
 			if err := validate(&report, ucfg); err != nil {
 				return content.Error(fmt.Errorf("invalid report: %v", err), http.StatusBadRequest)
